@@ -121,27 +121,33 @@ def gseq (prog : List MStep) (init max : Nat) (shared : Bool) (ops : List (Optio
 def pat (i : Nat) : Nat := ((i * 31 + 7) % 256) ||| 1
 
 /-- non-shared memory with contents; realloc leaves 0xAA beyond the old bytes (as tools/harness/grow_sched.c does) -/
-def gcontent (prog : List MStep) (init max : Nat) (fail : Bool) (deltas : List Nat) : String :=
-  let imm : Imm := { maxPages := max, shared := false, reallocFails := fail }
-  let rec go (st : GrowContent.CState) (ds : List Nat) (acc : List String) : List String :=
+def gcontent (prog : List MStep) (init max : Nat) (fail : Nat) (deltas : List Nat) : String :=
+  -- fail: 0 never, 1 always, k ≥ 2: the (k-1)-th realloc call fails.  A grow calls realloc iff it fits and delta > 0.
+  let rec go (st : GrowContent.CState) (calls : Nat) (ds : List Nat) (acc : List String) : List String :=
     match ds with
     | [] => acc.reverse
     | d :: rest =>
       let size := st.mem.pages * 65536
-      match GrowContent.growC imm (fun _ => 0xAA) prog st (d % 4294967296) with
+      let d := d % 4294967296
+      let willRealloc := d > 0 && st.mem.pages + d ≤ max
+      let calls := if willRealloc then calls + 1 else calls
+      let imm : Imm := { maxPages := max, shared := false,
+                         reallocFails := fail == 1 || (fail ≥ 2 && willRealloc && calls == fail - 1) }
+      match GrowContent.growC imm (fun _ => 0xAA) prog st d with
       | none => ("stuck" :: acc).reverse
       | some (st', v) =>
         let newSize := st'.mem.pages * 65536
         let oldOk := (List.range (min size newSize)).all fun k => st'.cur.bytes k == pat k
         let bad := (List.range (newSize - size)).filter fun k => st'.cur.bytes (size + k) != 0
         let first := match bad with | [] => "-" | k :: _ => toString (size + k)
-        let line := s!"r={v},p={st'.mem.pages},o={if oldOk then 1 else 0},z={bad.length},f={first}"
+        let dsame := if v == 4294967295 then (if st'.mem.data == st.mem.data then "1" else "0") else "-"
+        let line := s!"r={v},p={st'.mem.pages},d={dsame},o={if oldOk then 1 else 0},z={bad.length},f={first}"
         -- the program now uses the new pages
         let st'' : GrowContent.CState := { st' with cur := { st'.cur with bytes := pat } }
-        go st'' rest (line :: acc)
+        go st'' calls rest (line :: acc)
   let st0 : GrowContent.CState :=
     { mem := { data := 1, size := init * 65536 % 4294967296, pages := init }, cur := { cap := init * 65536, bytes := pat } }
-  " ".intercalate (go st0 deltas [])
+  " ".intercalate (go st0 0 deltas [])
 
 def cmd (ws : List String) : Option String :=
   match ws with
@@ -162,7 +168,7 @@ def cmd (ws : List String) : Option String :=
     | _, _, _, _, _ => some "err args"
   | "gcontent" :: p :: init :: max :: fail :: deltas =>
     match progOf p, init.toNat?, max.toNat?, fail.toNat?, deltas.mapM (·.toNat?) with
-    | some prog, some i, some m, some f, some ds => some (gcontent prog i m (f != 0) ds)
+    | some prog, some i, some m, some f, some ds => some (gcontent prog i m f ds)
     | _, _, _, _, _ => some "err args"
   | _ => none
 
